@@ -1383,4 +1383,263 @@ theorem lts_burst {a : A} {hist : List (HEv ℚ)} {q : QEntry ℚ} {en : Entry} 
     rw [hb]
     exact lts_burst_done hi hl h hd hm hne'
 
+/-! ## every configuration step is accepted by the LTS -/
+
+/-- accepted runs compose -/
+theorem runActs_append (sc : Sched ℚ (DRR.Ctl ℚ)) (as bs : List (MAct ℚ)) (s s1 s2 : MQState ℚ (DRR.Ctl ℚ))
+    (i1 o1 i2 o2 : List MPkt) (h1 : runActs sc s as = .ok (s1, i1, o1)) (h2 : runActs sc s1 bs = .ok (s2, i2, o2)) :
+    runActs sc s (as ++ bs) = .ok (s2, i1 ++ i2, o1 ++ o2) := by
+  induction as generalizing s i1 o1 with
+  | nil =>
+    simp only [runActs, Except.ok.injEq, Prod.mk.injEq] at h1
+    obtain ⟨rfl, rfl, rfl⟩ := h1
+    simpa using h2
+  | cons x xs ih =>
+    simp only [runActs, List.cons_append] at h1 ⊢
+    split at h1
+    · cases h1
+    · rename_i s' o hst
+      split at h1
+      · cases h1
+      · rename_i s'' ins outs hr
+        simp only [Except.ok.injEq, Prod.mk.injEq] at h1
+        obtain ⟨rfl, rfl, rfl⟩ := h1
+        rw [ih s' ins outs hr]
+        simp
+
+/-- what the LTS side of a configuration step delivers: an accepted action sequence (packets of at most `Lmax` bytes) into
+the new configuration's LTS state, with the packets that entered and left -/
+def LtsOK (flow size : Int → Nat) (cfg : DRR.Cfg ℚ) (Lmax : Nat) (a : A) (hist : List (HEv ℚ)) (t : ℚ) (a' : A)
+    (new : List (HEv ℚ)) : Prop :=
+  ∃ acts, (∀ x ∈ acts, DRR.ActOk (Lmax : ℚ) x) ∧
+    runActs (DRR.sched cfg) (toM cfg.flows flow size a hist t) acts =
+      .ok (toM cfg.flows flow size a' (hist ++ new) t, putPk flow size new, outPk flow size new)
+
+/-- the packet an action brings in / an output sends out -/
+def insOf : MAct ℚ → List MPkt
+  | .put p => [p]
+  | _ => []
+def outOf : MOut ℚ → List MPkt
+  | .depart p => [p]
+  | _ => []
+
+theorem ltsOK_nothing {a a' : A} {hist : List (HEv ℚ)} {t : ℚ}
+    (h : toM cfg.flows flow size a' (hist ++ []) t = toM cfg.flows flow size a hist t) : LtsOK flow size cfg Lmax a hist t a' [] :=
+  ⟨[], (by intro x hx; cases hx), (by rw [h]; rfl)⟩
+
+theorem ltsOK_one {a a' : A} {hist new : List (HEv ℚ)} {t : ℚ} (act : MAct ℚ) (o : MOut ℚ) (hact : DRR.ActOk (Lmax : ℚ) act)
+    (h : MQ.step (DRR.sched cfg) (toM cfg.flows flow size a hist t) act = .ok (toM cfg.flows flow size a' (hist ++ new) t, o))
+    (hin : putPk flow size new = insOf act) (hout : outPk flow size new = outOf o) :
+    LtsOK flow size cfg Lmax a hist t a' new := by
+  refine ⟨[act], by intro x hx; simp only [List.mem_singleton] at hx; rw [hx]; exact hact, ?_⟩
+  simp only [runActs, h, hin, hout]
+  cases act <;> cases o <;> rfl
+
+theorem actOk_of_not_put {act : MAct ℚ} (h : ∀ p, act ≠ .put p) (L : ℚ) : DRR.ActOk L act := fun p hp => absurd hp (h p)
+
+theorem insOf_of_not_put {act : MAct ℚ} (h : ∀ p, act ≠ .put p) : insOf act = [] := by
+  cases act <;> first | rfl | exact absurd rfl (h _)
+
+theorem mem_parkKeys_append' (flow : Int → Nat) (h l : List (HEv ℚ)) {c : Nat} (hc : c ∈ parkKeys flow h) :
+    c ∈ parkKeys flow (h ++ l) := mem_parkKeys_append flow h l hc
+
+theorem forfKeys_snoc_quiet (h : List (HEv ℚ)) (ev : HEv ℚ) (hq : ∀ c t, ev ≠ .reset c t) : forfKeys (h ++ [ev]) = forfKeys h := by
+  rw [forfKeys_snoc]
+  cases ev <;> first | rfl | exact absurd rfl (hq _ _)
+
+variable {now : ℚ} {q : QEntry ℚ}
+
+/-- a burst of `run` that ends with a `get` / a transmission / the wait for the token: the LTS accepts it, and what the
+observations say of the new configuration holds -/
+theorem lts_burst_end {a a' : A} {hist new : List (HEv ℚ)} {en : Entry} (hi : AInv flow F size cfg Lmax P a q.time)
+    (hl : LInv flow a hist) (hst : StartsAt a q en) (r : BurstRes)
+    (hb : a.burst F (qOf cfg) size cfg.weights P q.time en = r)
+    (hend : (∃ m' c' id' is, r.fin = .get m' c' ∧ c' < F ∧ a.items c' = id' :: is ∧
+        a' = { r.a with run := .H n m' id' ⟨q.time, NORMAL, e, n⟩, items := upd r.a.items c' is } ∧ new = r.evs) ∨
+      (∃ m' c' id' pk, r.fin = .send m' c' id' pk ∧
+        a' = { r.a with run := .S n m' id' ⟨q.time, URGENT, e, n + 1⟩, cur := some id' } ∧ new = r.evs ++ [.serve id' q.time]) ∨
+      (r.fin = .idle ∧ a.tokens = 0 ∧ a' = { r.a with run := .W n } ∧ new = r.evs ++ [.idle q.time]) ∨
+      (∃ k, r.fin = .idle ∧ a.tokens = k + 1 ∧ a' = { r.a with run := .K n ⟨q.time, NORMAL, e, n⟩, tokens := k } ∧
+        new = r.evs ++ [.idle q.time])) :
+    LtsOK flow size cfg Lmax a hist q.time a' new ∧ LInv flow a' (hist ++ new) := by
+  have hne : (a.burst F (qOf cfg) size cfg.weights P q.time en).fin ≠ .hang := by
+    rw [hb]
+    rcases hend with ⟨_, _, _, _, h, -⟩ | ⟨_, _, _, _, h, -⟩ | ⟨h, -⟩ | ⟨_, h, -⟩ <;> rw [h] <;> exact fun hh => nomatch hh
+  rcases lts_burst hi hl hst hne with ⟨g, m, id, hrun, hbe, hstep⟩ | ⟨a1, e0, L, act, hm, hsb, hl1, hnoio, hloop, hbe, hE, hnp, hstep⟩
+  · -- the packet in hand is sent at once
+    rw [hbe] at hb
+    subst hb
+    rcases hend with ⟨_, _, _, _, h, -⟩ | ⟨m', c', id', pk, hfin, rfl, rfl⟩ | ⟨h, -⟩ | ⟨_, h, -⟩
+    · cases h
+    · simp only [LoopEnd.send.injEq] at hfin
+      obtain ⟨rfl, rfl, rfl, rfl⟩ := hfin
+      have hserve : NoIO [HEv.serve id q.time] := by
+        intro ev hev
+        simp only [List.mem_singleton] at hev
+        subst hev
+        exact ⟨fun _ _ h => (nomatch h), fun _ _ h => (nomatch h)⟩
+      refine ⟨ltsOK_one .pktResume .nothing (fun p hp => by cases hp) (by simpa using hstep n ⟨q.time, URGENT, e, n + 1⟩) rfl rfl, ?_⟩
+      refine ⟨?_, ?_, ?_, ?_⟩
+      · show a.keys = _
+        rw [List.nil_append, putIds_noIO hserve]; exact hl.keys
+      · show a.recv = _
+        rw [List.nil_append, putIds_noIO hserve]; exact hl.recv
+      · intro c hc
+        exact mem_parkKeys_append flow hist _ (hl.park c hc)
+      · intro c hc
+        rw [List.nil_append, forfKeys_snoc_quiet hist (HEv.serve id q.time) (fun _ _ h => by cases h)] at hc
+        exact hl.forf c hc
+    · cases h
+    · cases h
+  · -- the loops run
+    rw [hb] at hbe hE hstep
+    have hfinA : r.a = finA a1 L (some r.fin) := by rw [hbe]
+    have hevs : r.evs = e0 ++ L.evs := by rw [hbe]
+    have hnoL := noIO_of_loopEv hloop
+    have hactOk : DRR.ActOk (Lmax : ℚ) act := actOk_of_not_put hnp _
+    have hkeys : ∀ (l : List (HEv ℚ)), NoIO l → a1.keys = keysOf flow (putIds (hist ++ (e0 ++ L.evs ++ l))) ∧
+        a1.recv = ((putIds (hist ++ (e0 ++ L.evs ++ l))).length : Nat) := by
+      intro l hl'
+      rw [putIds_noIO ((hnoio.append hnoL).append hl'), ← putIds_noIO hnoio hist]
+      exact ⟨hl1.keys, hl1.recv⟩
+    have hforf : ∀ (l : List (HEv ℚ)), (∀ ev ∈ l, ∀ c t, ev ≠ .reset c t) → forfKeys (hist ++ (e0 ++ L.evs ++ l)) = forfKeys (hist ++ e0) := by
+      intro l hl'
+      have h1 : forfKeys ((hist ++ e0) ++ L.evs) = forfKeys (hist ++ e0) := forfKeys_loopEv _ _ hloop
+      have : ∀ (l : List (HEv ℚ)) (H : List (HEv ℚ)), (∀ ev ∈ l, ∀ c t, ev ≠ .reset c t) → forfKeys (H ++ l) = forfKeys H := by
+        intro l
+        induction l with
+        | nil => intro H _; simp
+        | cons ev r ih =>
+          intro H hq
+          have := ih (H ++ [ev]) (fun x hx => hq x (List.mem_cons_of_mem _ hx))
+          rw [List.append_assoc, List.singleton_append] at this
+          rw [this, forfKeys_snoc_quiet _ _ (hq ev List.mem_cons_self)]
+      rw [show hist ++ (e0 ++ L.evs ++ l) = ((hist ++ e0) ++ L.evs) ++ l by simp, this l _ hl', h1]
+    rcases hend with ⟨m', c', id', is, hfin, hc', hit, rfl, rfl⟩ | ⟨m', c', id', pk, hfin, rfl, rfl⟩ | ⟨hfin, htk, rfl, rfl⟩ |
+      ⟨k, hfin, htk, rfl, rfl⟩
+    · -- `get`
+      rw [hfin] at hE hstep hfinA
+      rw [← hsb.items] at hit
+      have hk : c' ∈ a1.keys := by
+        by_contra hk
+        have := (hm.keysOK.2 c' hc' hk).1
+        rw [hit] at this; cases this
+      have hfl' : flow id' = c' := (hm.flowOK c' hc' id' (by rw [hit]; simp)).1
+      have hq := (NoIO.append hnoio hnoL).quiet (flow := flow) (size := size)
+      refine ⟨ltsOK_one act .nothing hactOk ?_ (by rw [hevs, hq.1, insOf_of_not_put hnp]) (by rw [hevs, hq.2.1]; rfl), ?_⟩
+      · rw [hstep, endM_get hl1.nodup hk hit hfl' ⟨q.time, NORMAL, e, n⟩ n, hevs, hfinA, List.append_assoc]
+        rfl
+      · have hk2 := hkeys [] (by intro ev hev; cases hev)
+        simp only [List.append_nil] at hk2
+        refine ⟨?_, ?_, ?_, ?_⟩
+        · show r.a.keys = _; rw [hfinA, hevs]; exact hk2.1
+        · show r.a.recv = _; rw [hfinA, hevs]; exact hk2.2
+        · intro c hc
+          have hc1 : a1.hol c ≠ none := by rw [hfinA] at hc; exact hc
+          rw [hevs, ← List.append_assoc]
+          exact mem_parkKeys_append flow _ _ (hl1.park c hc1)
+        · intro c hc
+          have := hforf [] (by intro ev hev; cases hev)
+          simp only [List.append_nil] at this
+          rw [hevs, this] at hc
+          show r.a.forf c = 0
+          rw [hfinA]
+          exact hl1.forf c hc
+    · -- a transmission
+      rw [hfin] at hE hstep hfinA
+      obtain ⟨rfl, ⟨w, hw⟩, hhol, hle, hcpos⟩ := hE
+      have hc' : c' < F := entry_lt hm.table (List.mem_of_getElem? hw)
+      have hpk : c' ∈ parkKeys flow ((hist ++ e0) ++ L.evs) :=
+        mem_parkKeys_append flow _ _ (hl1.park c' (by rw [hhol]; simp))
+      have hserve : NoIO [HEv.serve id' q.time] := by
+        intro ev hev
+        simp only [List.mem_singleton] at hev
+        subst hev
+        exact ⟨fun _ _ h => (nomatch h), fun _ _ h => (nomatch h)⟩
+      have hq := ((NoIO.append hnoio hnoL).append hserve).quiet (flow := flow) (size := size)
+      refine ⟨ltsOK_one act .nothing hactOk ?_ (by rw [hevs, hq.1, insOf_of_not_put hnp]) (by rw [hevs, hq.2.1]; rfl), ?_⟩
+      · rw [hstep, endM_send hpk ⟨q.time, URGENT, e, n + 1⟩ n, hevs, hfinA]
+        simp only [withOut, List.append_assoc]
+      · have hk2 := hkeys [HEv.serve id' q.time] hserve
+        refine ⟨?_, ?_, ?_, ?_⟩
+        · show r.a.keys = _; rw [hfinA, hevs]; exact hk2.1
+        · show r.a.recv = _; rw [hfinA, hevs]; exact hk2.2
+        · intro c hc
+          have hc1 : a1.hol c ≠ none := by
+            rw [hfinA] at hc
+            change upd a1.hol c' none c ≠ none at hc
+            by_cases hcc : c = c'
+            · subst hcc; rw [upd_same] at hc; exact absurd rfl hc
+            · rw [upd_ne _ _ _ _ hcc] at hc; exact hc
+          rw [hevs, show hist ++ (e0 ++ L.evs ++ [HEv.serve id' q.time]) = (hist ++ e0) ++ (L.evs ++ [HEv.serve id' q.time]) by simp]
+          exact mem_parkKeys_append flow _ _ (hl1.park c hc1)
+        · intro c hc
+          have := hforf [HEv.serve id' q.time] (by
+            intro ev hev
+            simp only [List.mem_singleton] at hev
+            subst hev
+            exact fun _ _ h => nomatch h)
+          rw [hevs, this] at hc
+          show r.a.forf c = 0
+          rw [hfinA]
+          exact hl1.forf c hc
+    · -- the loop blocks
+      rw [hfin] at hE hstep hfinA
+      have hidle : NoIO [HEv.idle q.time] := by
+        intro ev hev
+        simp only [List.mem_singleton] at hev
+        subst hev
+        exact ⟨fun _ _ h => (nomatch h), fun _ _ h => (nomatch h)⟩
+      have hq := ((NoIO.append hnoio hnoL).append hidle).quiet (flow := flow) (size := size)
+      refine ⟨ltsOK_one act .nothing hactOk ?_ (by rw [hevs, hq.1, insOf_of_not_put hnp]) (by rw [hevs, hq.2.1]; rfl), ?_⟩
+      · rw [hstep, endM_idle_zero (hsb.tokens ▸ htk) n, hevs, hfinA]
+        simp only [withOut, List.append_assoc]
+      · have hk2 := hkeys [HEv.idle q.time] hidle
+        refine ⟨?_, ?_, ?_, ?_⟩
+        · show r.a.keys = _; rw [hfinA, hevs]; exact hk2.1
+        · show r.a.recv = _; rw [hfinA, hevs]; exact hk2.2
+        · intro c hc
+          have hc1 : a1.hol c ≠ none := by rw [hfinA] at hc; exact hc
+          rw [hevs, show hist ++ (e0 ++ L.evs ++ [HEv.idle q.time]) = (hist ++ e0) ++ (L.evs ++ [HEv.idle q.time]) by simp]
+          exact mem_parkKeys_append flow _ _ (hl1.park c hc1)
+        · intro c hc
+          have := hforf [HEv.idle q.time] (by
+            intro ev hev
+            simp only [List.mem_singleton] at hev
+            subst hev
+            exact fun _ _ h => nomatch h)
+          rw [hevs, this] at hc
+          show r.a.forf c = 0
+          rw [hfinA]
+          exact hl1.forf c hc
+    · -- the loop takes a token
+      rw [hfin] at hE hstep hfinA
+      have hidle : NoIO [HEv.idle q.time] := by
+        intro ev hev
+        simp only [List.mem_singleton] at hev
+        subst hev
+        exact ⟨fun _ _ h => (nomatch h), fun _ _ h => (nomatch h)⟩
+      have hq := ((NoIO.append hnoio hnoL).append hidle).quiet (flow := flow) (size := size)
+      refine ⟨ltsOK_one act .nothing hactOk ?_ (by rw [hevs, hq.1, insOf_of_not_put hnp]) (by rw [hevs, hq.2.1]; rfl), ?_⟩
+      · rw [hstep, endM_idle_succ (hsb.tokens ▸ htk) n ⟨q.time, NORMAL, e, n⟩, hevs, hfinA]
+        simp only [withOut, List.append_assoc]
+      · have hk2 := hkeys [HEv.idle q.time] hidle
+        refine ⟨?_, ?_, ?_, ?_⟩
+        · show r.a.keys = _; rw [hfinA, hevs]; exact hk2.1
+        · show r.a.recv = _; rw [hfinA, hevs]; exact hk2.2
+        · intro c hc
+          have hc1 : a1.hol c ≠ none := by rw [hfinA] at hc; exact hc
+          rw [hevs, show hist ++ (e0 ++ L.evs ++ [HEv.idle q.time]) = (hist ++ e0) ++ (L.evs ++ [HEv.idle q.time]) by simp]
+          exact mem_parkKeys_append flow _ _ (hl1.park c hc1)
+        · intro c hc
+          have := hforf [HEv.idle q.time] (by
+            intro ev hev
+            simp only [List.mem_singleton] at hev
+            subst hev
+            exact fun _ _ h => nomatch h)
+          rw [hevs, this] at hc
+          show r.a.forf c = 0
+          rw [hfinA]
+          exact hl1.forf c hc
+
 end DRRK
